@@ -14,8 +14,8 @@ SimExecutor (inline=False) and SimScheduler, so each spec action is one harness 
                      and before executor.shutdown()
   Request(s)         session.execute_async after shutdown() returned
 
-ControlConnection._reconnect runs as a logical thread too and is parked where _set_new_connection takes the
-control connection's lock, which makes the two halves (Exec(CtlReconnect), Exec(CtlSet)) separate steps.
+ControlConnection._reconnect runs as a logical thread too and is parked where it calls _set_new_connection,
+which makes the two halves (Exec(CtlReconnect), Exec(CtlSet)) separate steps.
 After every step project() reads the state of the real objects in the shape of the spec's variables.
 """
 import functools
@@ -25,7 +25,7 @@ from collections import Counter
 
 from harness.sim import simcluster
 from harness.sim.simcluster import SimWorld, FakeNode, make_cluster
-from harness.sim.detsched import DetSched, DRLock
+from harness.sim.detsched import DetSched
 from harness import wire
 
 import cassandra.cluster as ccluster
@@ -208,7 +208,12 @@ class HostsHarness:
         self._see_hosts()
         # logical threads: Cluster.shutdown in phases, ControlConnection._reconnect in two halves
         self.ds = DetSched()
-        self.cc._lock = DRLock("cc")
+        set_new = self.cc._set_new_connection
+
+        def set_new_connection_with_yield(conn):
+            self.ds.yield_point("set_new_connection")
+            return set_new(conn)
+        self.cc._set_new_connection = set_new_connection_with_yield
         # yield points of Cluster.shutdown: where it starts iterating the sessions, where it shuts the executor
         self.cluster.sessions = _YieldingWeakSet(self.cluster.sessions)
         ex_shutdown = self.ex.shutdown
@@ -368,7 +373,7 @@ class HostsHarness:
             raise HarnessError("no queued executor task %s; queue=%s" % (want, [d for d, _ in self.exec_items()]))
         if want[0] == "CtlReconnect":
             th = self._spawn("CC", self.ex.run, t)
-            lab = self.ds.run_until(th, "acq:cc")
+            lab = self.ds.run_until(th, "set_new_connection")
             if lab != "end":
                 self.cc_threads.append(th)
             return
